@@ -76,6 +76,26 @@ def check_dict(n, res, dv2l):
                       {'mode': 'dict', 'n': n})
     if isinstance(got.get('flag'), str):
         res.tally('interpretation_only:bool_leaf_formatted_as_amount')
+    # a sequence of calls: results are independent objects, a later call with other keys neither inherits
+    # earlier keys nor rewrites an earlier result that is still held
+    try:
+        first = dv2l({'total': n, 'only_first': 7})
+        snapshot = dict(first)
+        second = dv2l({'total': n + 1 if n < LIMIT else n - 1, 'only_second': {'x': 1}})
+        third = dv2l({})
+        bad = None
+        if first != snapshot:
+            bad = f'an earlier result was rewritten by a later call: {snapshot!r} -> {first!r}'
+        elif set(second) != {'total', 'only_second'} or second.get('total') != ref_format(n + 1 if n < LIMIT else n - 1):
+            bad = f'second call returned {second!r}'
+        elif third != {}:
+            bad = f'dict_values_to_lbc({{}}) returned {third!r} after earlier calls'
+        elif first is second or second is third:
+            bad = 'two calls returned the same dict object'
+        if bad:
+            res.violation({'kind': 'dict-call-sequence'}, bad, {'mode': 'dict', 'n': n})
+    except Exception as e:   # noqa
+        res.violation({'kind': 'dict-call-sequence', 'exc': type(e).__name__}, f'call sequence raised {e!r}', {'mode': 'dict', 'n': n})
 
 
 def check_str(s, res, l2d):
